@@ -228,8 +228,10 @@ def race_jobs(tag, s, tier, work, kind="ledger", focus=None):
                  withdraw=0, wburst=0, client=0, host=0, deposit=0, settlemode=0, sleep=0)
         focus0 = "C10race"
     else:
-        w = dict(wburst=45, credit=20, deposit=10, addnode=5, update=10, withdraw=5, settlemode=3, burst=0, sburst=0, sleep=0, client=0, host=0, mode=0)
+        w = dict(wburst=60, credit=12, deposit=8, addnode=5, update=8, withdraw=4, settlemode=2, burst=0, sburst=0, sleep=0, client=0, host=0, mode=0,
+                 forged=2, stale=1, peer=2, reconnect=2, close=1, reopen=1, legacy=0, account=0, stats=0, status=0)
         focus = "C07race"
+        nt, nops = nt * 2, nops
     if kind == "ledger":
         nt, nops = nt * 3, max(10, nops // 3)     # many short sessions: the start-up bursts are where first credits race
     return pool_jobs(tag, focus or focus0, s + 77, nt, nops, work, cfg=RACE_CFG, weights=w, chunks=1 if tier == "quick" else 4, binary="viprace")
@@ -506,7 +508,7 @@ def reopen_script(seed, ntraces, nops, workdir):
             if x < 0.12:
                 g.ops.append({"op": "Reopen"})
             elif x < 0.18:
-                g.ops.append({"op": "Downgrade", "v": rnd.choice([0, 1])})
+                g.ops.append({"op": "Downgrade", "v": rnd.choice([0, 1]), "fill": rnd.choice([0, 40, 150, 400])})   # fill: old nonce records of that many other identities
                 migrated = True
             elif migrated and x < 0.22:
                 pass
